@@ -3,7 +3,7 @@
 use anyhow::{Context, Result};
 use clap::{Subcommand, ValueEnum};
 use std::fs;
-use std::path::Path;
+use std::path::{Path, PathBuf};
 use wow_mpq::{
     Archive, ArchiveBuilder, FormatVersion, PatchChain, RebuildOptions,
     compare_archives as mpq_compare_archives,
@@ -11,7 +11,6 @@ use wow_mpq::{
         HexDumpConfig, dump_block_entry, dump_hash_entry, format_bet_table, format_block_table,
         format_hash_table, format_het_table, hex_dump,
     },
-    path::mpq_path_to_system,
     rebuild_archive,
     single_archive_parallel::{ParallelArchive, ParallelConfig},
 };
@@ -706,6 +705,54 @@ fn extract_files(
     extract_files_with_options(options)
 }
 
+/// Map an archive entry name to a path relative to the extraction directory.
+/// Returns `None` when the name cannot be placed beneath it (parent-directory
+/// components, drive prefixes, names without any component).
+///
+/// Entry names come from the archive and are untrusted. Both `\` and `/` are
+/// separators on every platform; empty and `.` components are dropped, so a
+/// rooted name such as `\a\b` is placed at `a/b` beneath the extraction
+/// directory (as `tar` does for `/a/b`). The result has only normal components,
+/// so joining it onto a directory stays beneath that directory.
+/// With `preserve_paths == false` only the last component is returned.
+fn extraction_relative_path(entry_name: &str, preserve_paths: bool) -> Option<PathBuf> {
+    if !entry_name_is_contained(entry_name) {
+        return None;
+    }
+    let mut components = entry_name
+        .split(['\\', '/'])
+        .filter(|component| !component.is_empty() && *component != ".");
+    if preserve_paths {
+        Some(components.collect())
+    } else {
+        components.next_back().map(PathBuf::from)
+    }
+}
+
+/// `true` when no `\`- or `/`-separated component of `entry_name` is `..` or
+/// contains `:` (drive prefix, NTFS stream) and at least one component other
+/// than `.` is present.
+fn entry_name_is_contained(entry_name: &str) -> bool {
+    let bytes = entry_name.as_bytes();
+    let mut start = 0;
+    let mut named = false;
+    for end in 0..=bytes.len() {
+        if end < bytes.len() && bytes[end] != b'\\' && bytes[end] != b'/' {
+            if bytes[end] == b':' {
+                return false;
+            }
+            continue;
+        }
+        match &bytes[start..end] {
+            b"" | b"." => {}
+            b".." => return false,
+            _ => named = true,
+        }
+        start = end + 1;
+    }
+    named
+}
+
 fn extract_files_with_options(options: ExtractOptions) -> Result<()> {
     let ExtractOptions {
         archive_path,
@@ -820,16 +867,16 @@ fn extract_files_with_options(options: ExtractOptions) -> Result<()> {
         for (file, data_result) in results {
             pb.set_message(format!("Writing: {file}"));
 
+            let Some(relative_path) = extraction_relative_path(&file, preserve_paths) else {
+                log::warn!("Failed to extract {file}: name would escape the output directory");
+                error_count += 1;
+                pb.inc(1);
+                continue;
+            };
+
             match data_result {
                 Ok(data) => {
-                    let output_path = if preserve_paths {
-                        let system_path = mpq_path_to_system(&file);
-                        Path::new(&output_dir).join(system_path)
-                    } else {
-                        let system_path = mpq_path_to_system(&file);
-                        let filename = Path::new(&system_path).file_name().unwrap_or_default();
-                        Path::new(&output_dir).join(filename)
-                    };
+                    let output_path = Path::new(&output_dir).join(relative_path);
 
                     if let Some(parent) = output_path.parent() {
                         fs::create_dir_all(parent)?;
@@ -898,18 +945,16 @@ fn extract_files_with_options(options: ExtractOptions) -> Result<()> {
         for file in files_to_extract.iter() {
             pb.set_message(format!("Extracting: {file}"));
 
+            let Some(relative_path) = extraction_relative_path(file, preserve_paths) else {
+                log::warn!("Failed to extract {file}: name would escape the output directory");
+                error_count += 1;
+                pb.inc(1);
+                continue;
+            };
+
             match chain.read_file(file) {
                 Ok(data) => {
-                    let output_path = if preserve_paths {
-                        // Convert MPQ path separators to system path separators
-                        let system_path = mpq_path_to_system(file);
-                        Path::new(&output_dir).join(system_path)
-                    } else {
-                        // Convert MPQ path to system path, then extract just the filename
-                        let system_path = mpq_path_to_system(file);
-                        let filename = Path::new(&system_path).file_name().unwrap_or_default();
-                        Path::new(&output_dir).join(filename)
-                    };
+                    let output_path = Path::new(&output_dir).join(relative_path);
 
                     if let Some(parent) = output_path.parent() {
                         fs::create_dir_all(parent)?;
